@@ -254,7 +254,8 @@ Inductive gres :=
 | GInvalid                               (* GeneratorError from InvalidValueFromGenerator *)
 | GNoneWord                              (* GeneratorError from the None assertion *)
 | GParse (lineno : nat) (row : string)   (* GeneratorError from ParserError *)
-| GAcl (path : string).                  (* GeneratorError from AclError("a / b / row") *)
+| GAcl (path : string)                   (* GeneratorError from AclError("a / b / row") *)
+| GAclCompile.                           (* NotImplementedError from compile_acl_text (ignore rule) *)
 
 (* vendor formatter with CommonFormatter.split (e.g. optixtrans) *)
 Definition run_noacl (p : prog) : gres :=
@@ -275,6 +276,7 @@ Definition gres_eqb (a b : gres) : bool :=
   | GNoneWord, GNoneWord => true
   | GParse n r, GParse m q => Nat.eqb n m && String.eqb r q
   | GAcl p, GAcl q => String.eqb p q
+  | GAclCompile, GAclCompile => true
   | _, _ => false
   end.
 
